@@ -93,7 +93,7 @@ def gen_config(rng):
     if kind == "latlon":
         x = [min(v, 3.0 * true["geo_scale"]) for v in x]
         x = sorted(set(x))
-    return {"n_ops": rng.randint(1, 3), "dim": true["dim"], "kind": kind, "true": true,
+    return {"n_ops": rng.randint(1, 4), "dim": true["dim"], "kind": kind, "true": true,
             "x": x, "faults": rng.random() >= 0.4,
             "start_scale": {k: rng.choice([0.8, 0.9, 1.1, 1.2])
                             for k in ("var", "len_scale", "nugget")}}
@@ -207,6 +207,11 @@ class Party:
                     q[j] = q[j] + h if q[j] + h < self.hi[j] else q[j] - h
                     self.evaluate(q)
                 ctx.fired("optimizer_order")
+            elif a == "raise":
+                # curve_fit gives up (as scipy does with "Optimal parameters not found"): the
+                # fit fails half-way, the model keeps the last evaluated parameters
+                ctx.fired("optimizer_raises")
+                raise RuntimeError("Optimal parameters not found: simulated optimizer gave up")
             elif a == "choose":
                 if act["how"] == "point":
                     chosen = self._point(act["u"])
@@ -437,7 +442,9 @@ class Machine:
             sched = []
             for _ in range(rng.randint(0, 5)):
                 r = rng.random()
-                if r < 0.55:
+                if r < 0.05:
+                    sched.append({"a": "raise"})
+                elif r < 0.55:
                     sched.append({"a": "eval", "u": [round(rng.random(), 3) for _ in range(8)]})
                 elif r < 0.8:
                     sched.append({"a": "fd", "base": rng.randint(0, 9),
@@ -540,6 +547,16 @@ class Machine:
             raise Violation("C10.fit_raised", error=msg[:160], party=op["party"],
                             method=kw.get("method"))
         except RuntimeError as e:
+            if "simulated optimizer gave up" in str(e):
+                # fail-and-continue: the same model object is used for the next fit; whatever
+                # it holds now is that fit's pre-state
+                self.ctx.probe("fit_failed_midway_model_kept")
+                try:
+                    read(self.model)
+                    self.model.check_arg_bounds()
+                except Exception:
+                    self.model = build(self.start)
+                raise Inapplicable("simulated optimizer gave up")
             self.model = build(self.start)
             raise Inapplicable("optimizer did not converge: %s" % str(e)[:60])
         finally:
@@ -596,11 +613,21 @@ class Machine:
                 raise Violation("C10.returned_dict_missing", key=k)
         # ---- recovery (fault free party only)
         if op["party"] == "real":
-            self._check_recovery(exp, post, r2, kw)
+            self._check_recovery(exp, post, r2, kw, party)
 
-    def _check_recovery(self, exp, post, r2, kw):
+    def _check_recovery(self, exp, post, r2, kw, party):
         t = self.cfg["true"]
         sill = t["var"] + t["nugget"]
+        # "from a start near the truth": the true parameter vector must lie strictly inside the
+        # optimizer's box (a start on/over a bound is replaced by GSTools with the middle of the
+        # box) and the start actually handed to the optimizer must be within 30 % of it
+        tv = exp.truth(party.lo, party.hi)
+        if tv is None:
+            self.ctx.probe("recovery.truth_on_boundary")
+            return
+        if np.any(np.abs(party.p0 - tv) > 0.3 * np.abs(tv) + 1e-12):
+            self.ctx.probe("recovery.start_not_near_truth")
+            return
         # is the truth reachable under this selection?
         pre_ok = True
         for name in ["var", "len_scale", "nugget"]:
